@@ -350,6 +350,16 @@ def apply(t, op):
         ids = [str(i) for i in t.ids(axis=op["axis"])]
         p = hops.perm_from_key(len(ids), op["key"])
         order = [ids[i] for i in p]
+        if len(ids) >= 2 and sum(op["key"]) % 4 == 0:
+            # an order naming one ID twice is not a reordering: refused (a
+            # result would carry a duplicated ID, which the invariants report)
+            from biom.exception import TableException
+            order[-1] = order[0]
+            try:
+                r = t.sort_order(order, axis=op["axis"])
+            except TableException:
+                return Outcome(skipped="repeated id refused")
+            return Outcome(r)
         held = _held(order)
         r = _call(t.sort_order, [order], {"axis": op["axis"]}, op,
                   {"axis": "sample"})
